@@ -9,7 +9,16 @@
   schedules; "later" is expressed by schedule concatenation `p ++ q`.
 
     1. `deal_monotone` (unconditional, even with the pre-fix routines), `committed_monotone`
-    2. `deals_unique`, `deal_results_increase_in_real_time`
+    2. `deals_unique`, `deal_results_increase_in_real_time` (Deal is a load / load / check / compare-and-swap
+       loop since 624b477: "before B executed its add" = B's call is still in progress, `Pc.dealing`)
+    2w. the window (624b477): `dealt_stays_in_window` — every revision v a Deal returned satisfies
+       `v ≤ committed + (W - 1)` in the state it was returned in and in EVERY later state (the exact step-level
+       guarantee is `deal_checked_against_loaded_value`: `v ≤ c + (W - 1)` for the committed value `c` that Deal
+       loaded, and committed only grows), `dealt_distance_below_window`, `cursor_stays_in_window` (the cursor
+       itself, Commits included), `dealt_stays_in_ring` (with the regenerated constants);
+       `refused_only_when_window_full` + `refusal_iff_window_full_for_loaded_values` (a refusal is justified by
+       the LOADED values; it can be stale w.r.t. the registers' present values: `refusal_can_be_stale`);
+       `old_deal_leaves_window` / `current_deal_refuses` (W = 3, by evaluation)
     3. `commit_postcondition`
     4. `deal_after_commit_is_above` (C15: a new leader's first revision exceeds the start revision it
        installed) and `get_after_commit_is_at_least`, `get_results_monotone_in_real_time` (C18: a follower's
@@ -19,7 +28,9 @@
        `four_steps_not_enough_midway` (a stale compare-and-swap costs one extra round);
        `failed_cas_means_progress(_deal)`, and the bound `commit_failures_bounded(_deal)`: the failed
        compare-and-swaps of one Commit are at most the changes OTHER threads make to the register while it is
-       below `r` (each of them a raise: `change_below_is_a_raise`)
+       below `r` (each of them a raise: `change_below_is_a_raise`); the same for Deal's compare-and-swap:
+       `failed_deal_cas_means_progress`, `failed_deal_cas_register_was_raised`, `deal_failures_bounded`,
+       `deal_change_is_a_raise`, `deal_terminates_when_alone`
     6. refutations for the routines before the repairs db7d4ff / 55a7cb8, by evaluation of concrete
        schedules: `old_commit_lowers`, `old_deal_cas_lost`, `old_deal_cas_lost_to_deal`; the same schedules
        under the current routines: `current_commit_keeps`, `current_deal_cas_retried`, `current_deal_after_commit`
@@ -34,19 +45,20 @@
 import KB.TsoCas
 import KB.Lemmas.TsoCas
 import KB.Generated.OrderFacts
+import KB.Generated.Consts
 namespace KB.C18Cas
 open KB.TsoCas KB.Generated
 
 /-! ## the invariant -/
 
-/-- Any number of goroutines at the entry of any calls, on registers with any contents. -/
-theorem invariant_holds_initially (c d : Nat) (calls : List Call) : WF (init c d calls) := wf_init c d calls
+/-- Any number of goroutines at the entry of any calls, on registers with any contents, any window. -/
+theorem invariant_holds_initially (W c d : Nat) (calls : List Call) : WF (init W c d calls) := wf_init W c d calls
 
 theorem invariant_preserved_by_every_step {s : State} (h : WF s) (t : Nat) : WF (step s t) := wf_step h t
 
 theorem invariant_along_every_execution {s : State} (h : WF s) (sched : List Nat) : WF (run s sched) := wf_run h sched
 
-example : WF (init 4 9 [.deal, .commit 7, .get, .commit 2, .deal]) := wf_init _ _ _
+example : WF (init 100 4 9 [.deal, .commit 7, .get, .commit 2, .deal]) := wf_init _ _ _ _
 
 /-! ## 1. the registers never decrease -/
 
@@ -64,8 +76,8 @@ theorem committed_monotone_without_plain_store {s : State} (h : NoPlainStore s) 
     (run s p).committed ≤ (run s (p ++ q)).committed := by
   rw [run_append]; exact run_committed_mono (noPlainStore_run h p) q
 
-example : (run (init 3 3 [.commit 9, .commit 5, .deal]) [0, 0, 1, 2, 1]).committed = 9 ∧
-    (run (init 3 3 [.commit 9, .commit 5, .deal]) ([0, 0, 1, 2, 1] ++ [1, 1, 0, 0])).committed = 9 := by decide
+example : (run (init 100 3 3 [.commit 9, .commit 5, .deal]) [0, 0, 1, 2, 1]).committed = 9 ∧
+    (run (init 100 3 3 [.commit 9, .commit 5, .deal]) ([0, 0, 1, 2, 1] ++ [1, 1, 0, 0])).committed = 9 := by decide
 
 /-! ## 2. Deal -/
 
@@ -77,21 +89,111 @@ theorem deals_unique {s : State} (h : WF s) (p : List Nat) {i j a b : Nat}
   subst hab
   exact hne ((wf_run h p).distinct i j a hi hj)
 
-example : (run (init 3 3 [.deal, .commit 9, .deal]) [1, 1, 0, 1, 1, 1, 1, 2]).threads[0]? = some (.dealDone 4) ∧
-    (run (init 3 3 [.deal, .commit 9, .deal]) [1, 1, 0, 1, 1, 1, 1, 2]).threads[2]? = some (.dealDone 10) := by decide
+example : (run (init 100 3 3 [.deal, .commit 9, .deal]) [0, 0, 0, 1, 1, 1, 1, 2, 2, 2]).threads[0]? = some (.dealDone 4) ∧
+    (run (init 100 3 3 [.deal, .commit 9, .deal]) [0, 0, 0, 1, 1, 1, 1, 2, 2, 2]).threads[2]? = some (.dealDone 10) := by decide
 
-/-- If Deal call `a` had returned before Deal call `b` executed its add, `a`'s result is below `b`'s. -/
-theorem deal_results_increase_in_real_time {s : State} (h : WF s) (p q : List Nat) {a b va vb : Nat}
-    (ha : (run s p).threads[a]? = some (.dealDone va)) (hb : (run s p).threads[b]? = some .dealAdd)
+/-- If Deal call `a` had returned while Deal call `b` was still in progress (`b` had not executed its successful
+compare-and-swap; in particular: had not begun), `a`'s result is below `b`'s. -/
+theorem deal_results_increase_in_real_time {s : State} (h : WF s) (p q : List Nat) {a b va vb : Nat} {pcb : Pc}
+    (ha : (run s p).threads[a]? = some (.dealDone va))
+    (hb : (run s p).threads[b]? = some pcb) (hpcb : pcb.dealing = true)
     (hb' : (run s (p ++ q)).threads[b]? = some (.dealDone vb)) : va < vb := by
   rw [run_append] at hb'
   have h1 := (wf_run h p).loc a _ ha
   simp only [Local] at h1
-  exact Nat.lt_of_le_of_lt h1.2 (deal_result_above q hb hb')
+  exact Nat.lt_of_le_of_lt h1.2.1 (deal_result_above q hb hpcb hb')
 
-example : (run (init 3 3 [.deal, .deal, .commit 9]) [0, 2, 2]).threads[0]? = some (.dealDone 4) ∧
-    (run (init 3 3 [.deal, .deal, .commit 9]) [0, 2, 2]).threads[1]? = some .dealAdd ∧
-    (run (init 3 3 [.deal, .deal, .commit 9]) ([0, 2, 2] ++ [2, 2, 1])).threads[1]? = some (.dealDone 10) := by decide
+example : (run (init 100 3 3 [.deal, .deal, .commit 9]) [0, 0, 0, 2, 2, 1, 1]).threads[0]? = some (.dealDone 4) ∧
+    (run (init 100 3 3 [.deal, .deal, .commit 9]) [0, 0, 0, 2, 2, 1, 1]).threads[1]? = some (.dealCas 4 9) ∧
+    (Pc.dealCas 4 9).dealing = true ∧
+    (run (init 100 3 3 [.deal, .deal, .commit 9]) ([0, 0, 0, 2, 2, 1, 1] ++ [2, 2, 1, 1, 1, 1])).threads[1]? = some (.dealDone 10) := by
+  decide
+
+/-! ## 2w. the window: a dealt revision is never `W` or more ahead of the committed one -/
+
+/-- The exact guarantee of one Deal, at the step that returns: the value is the loaded cursor + 1, the cursor
+still had the loaded value, and the result is within the window of the committed value THIS Deal loaded
+(`c0`, possibly long ago; the register's present value is at least that: `WF`). -/
+theorem deal_checked_against_loaded_value (s : State) {t dealt c0 v : Nat} (ht : s.threads[t]? = some (.dealCas dealt c0))
+    (hv : (step s t).threads[t]? = some (.dealDone v)) :
+    v = dealt + 1 ∧ s.deal = dealt ∧ (dealt < c0 ∨ dealt + 1 - c0 < s.window) ∧ v ≤ c0 + (s.window - 1) := by
+  rw [step_threads_self ht] at hv
+  simp only [stepPc] at hv
+  by_cases h1 : c0 ≤ dealt ∧ s.window ≤ dealt + 1 - c0
+  · simp [h1] at hv
+  · by_cases h2 : s.deal = dealt
+    · simp [h1, h2] at hv
+      omega
+    · simp [h1, h2] at hv
+
+/-- Every revision `v` a Deal has returned is within the window of the committed revision — in the state it was
+returned in (`q = []`) and, because the committed revision only grows, in every later state:
+`v ≤ committed + (W - 1)` (for `W = 0` nothing above `committed` is ever dealt). -/
+theorem dealt_stays_in_window {s : State} (h : WF s) (p q : List Nat) {t v : Nat}
+    (ht : (run s p).threads[t]? = some (.dealDone v)) :
+    v ≤ (run s (p ++ q)).committed + (s.window - 1) := by
+  have ht' : (run s (p ++ q)).threads[t]? = some (.dealDone v) := by
+    rw [run_append]; exact done_stable ht rfl q
+  have := (wf_run h (p ++ q)).loc t _ ht'
+  simp only [Local, run_window] at this
+  exact this.2.2
+
+/-- … as a distance: `v - committed < W` (truncated subtraction: 0 when the committed revision has passed `v`). -/
+theorem dealt_distance_below_window {s : State} (h : WF s) (hW : 0 < s.window) (p q : List Nat) {t v : Nat}
+    (ht : (run s p).threads[t]? = some (.dealDone v)) : v - (run s (p ++ q)).committed < s.window := by
+  have := dealt_stays_in_window h p q ht
+  omega
+
+/-- The cursor itself: from a state with `deal ≤ committed + (W - 1)` (e.g. `deal = committed`: a fresh `NewTSO()`,
+or after `Init`) the deal cursor never leaves the window, whatever Deals and Commits interleave — a Commit raises
+`deal` only to a revision it has already made `committed` reach. So at most `W - 1` revisions are ever dealt
+and not committed. -/
+theorem cursor_stays_in_window {s : State} (h : WF s) (hw : s.deal ≤ s.committed + (s.window - 1)) (p : List Nat) :
+    (run s p).deal ≤ (run s p).committed + (s.window - 1) := by
+  have := run_cursor_window h hw p
+  rwa [run_window] at this
+
+example : (run (init 3 0 0 [.deal, .deal, .commit 1, .deal, .deal]) [0, 0, 0, 1, 1, 1, 3, 3, 3, 2, 2, 2, 2, 4, 4, 4]).threads
+    = [.dealDone 1, .dealDone 2, .commitDone 1, .dealRefused 2 0, .dealDone 3] := by decide
+
+/-- A refused Deal had loaded values that fill the window: `dealt ≥ committed₀ ∧ dealt + 1 - committed₀ ≥ W`, both
+loaded from the registers earlier (`dealt ≤ deal`, `committed₀ ≤ committed` now). -/
+theorem refused_only_when_window_full {s : State} (h : WF s) (p : List Nat) {t dealt c0 : Nat}
+    (ht : (run s p).threads[t]? = some (.dealRefused dealt c0)) :
+    c0 ≤ dealt ∧ s.window ≤ dealt + 1 - c0 ∧ dealt ≤ (run s p).deal ∧ c0 ≤ (run s p).committed := by
+  have := (wf_run h p).loc t _ ht
+  simp only [Local, run_window] at this
+  omega
+
+/-- At the moment of the check: the step from `dealCas dealt c0` refuses exactly when the loaded values fill the window. -/
+theorem refusal_iff_window_full_for_loaded_values (s : State) {t dealt c0 : Nat} (ht : s.threads[t]? = some (.dealCas dealt c0)) :
+    (step s t).threads[t]? = some (.dealRefused dealt c0) ↔ (c0 ≤ dealt ∧ s.window ≤ dealt + 1 - c0) := by
+  rw [step_threads_self ht]
+  simp only [stepPc]
+  by_cases h1 : c0 ≤ dealt ∧ s.window ≤ dealt + 1 - c0
+  · simp [h1]
+  · by_cases h2 : s.deal = dealt <;> simp [h1, h2]
+
+/-- The refusal is conservative, not exact: between the loads and the check a Commit may have emptied the window
+(here: W = 3, two revisions dealt, thread 2 loads `deal = 2, committed = 0`, Commit 2 finishes, thread 2 refuses
+although `deal + 1 - committed = 1` now). The caller is told to try again. -/
+theorem refusal_can_be_stale :
+    let s := run (init 3 0 0 [.deal, .deal, .deal, .commit 2]) [0, 0, 0, 1, 1, 1, 2, 2, 3, 3, 3, 3, 2]
+    s.threads[2]? = some (.dealRefused 2 0) ∧ s.threads[3]? = some (.commitDone 2) ∧ s.deal + 1 - s.committed = 1 := by
+  decide
+
+/-- W = 3, nothing committed: the one-instruction Deal of the code before 624b477 hands out revision 3 = committed + W
+(no slot in a ring of 3) … -/
+theorem old_deal_leaves_window :
+    let s := run { window := 3, committed := 0, deal := 0, threads := [.dealAddOld, .dealAddOld, .dealAddOld] } [0, 1, 2]
+    s.threads[2]? = some (.dealDone 3) ∧ s.committed = 0 ∧ s.window ≤ 3 - s.committed := by
+  decide
+
+/-- … the current Deal refuses the third call and the cursor stays at 2. -/
+theorem current_deal_refuses :
+    let s := run (init 3 0 0 [.deal, .deal, .deal]) [0, 0, 0, 1, 1, 1, 2, 2, 2]
+    s.threads = [.dealDone 1, .dealDone 2, .dealRefused 2 0] ∧ s.deal = 2 ∧ s.committed = 0 := by
+  decide
 
 /-! ## 3. Commit's postcondition, now and for ever -/
 
@@ -105,23 +207,29 @@ theorem commit_postcondition {s : State} (h : WF s) (p q : List Nat) {t r : Nat}
   have := (wf_run h (p ++ q)).loc t _ ht'
   simpa only [Local] using this
 
-example : (run (init 3 3 [.commit 9, .deal, .commit 5]) [0, 0, 1, 0, 0, 0, 0]).threads[0]? = some (.commitDone 9) := by
+example : (run (init 100 3 3 [.commit 9, .deal, .commit 5]) [0, 0, 1, 0, 0, 0, 0]).threads[0]? = some (.commitDone 9) := by
   decide
 
 /-! ## 4. after a Commit -/
 
-/-- A Deal whose add executes after a `Commit r` call finished returns a value above `r`. -/
-theorem deal_after_commit_is_above {s : State} (h : WF s) (p q : List Nat) {t b r v : Nat}
-    (ht : (run s p).threads[t]? = some (.commitDone r)) (hb : (run s p).threads[b]? = some .dealAdd)
+/-- A Deal whose (successful) add executes after a `Commit r` call finished — a Deal still in progress, or not
+yet begun, when the Commit finished — returns a value above `r`. -/
+theorem deal_after_commit_is_above {s : State} (h : WF s) (p q : List Nat) {t b r v : Nat} {pcb : Pc}
+    (ht : (run s p).threads[t]? = some (.commitDone r))
+    (hb : (run s p).threads[b]? = some pcb) (hpcb : pcb.dealing = true)
     (hb' : (run s (p ++ q)).threads[b]? = some (.dealDone v)) : r < v := by
   rw [run_append] at hb'
   have h1 := (wf_run h p).loc t _ ht
   simp only [Local] at h1
-  exact Nat.lt_of_le_of_lt h1.2 (deal_result_above q hb hb')
+  exact Nat.lt_of_le_of_lt h1.2 (deal_result_above q hb hpcb hb')
 
-example : (run (init 3 3 [.commit 9, .deal, .deal]) [0, 0, 1, 0, 0, 0, 0]).threads[0]? = some (.commitDone 9) ∧
-    (run (init 3 3 [.commit 9, .deal, .deal]) [0, 0, 1, 0, 0, 0, 0]).threads[2]? = some .dealAdd ∧
-    (run (init 3 3 [.commit 9, .deal, .deal]) ([0, 0, 1, 0, 0, 0, 0] ++ [2])).threads[2]? = some (.dealDone 10) := by
+/-- thread 2 has not begun; thread 1 loaded `deal = 3` BEFORE the Commit finished: its compare-and-swap fails and it
+goes round again -/
+example : (run (init 100 3 3 [.commit 9, .deal, .deal]) [0, 0, 1, 0, 0, 0, 0]).threads[0]? = some (.commitDone 9) ∧
+    (run (init 100 3 3 [.commit 9, .deal, .deal]) [0, 0, 1, 0, 0, 0, 0]).threads[2]? = some .dealLoadD ∧
+    (run (init 100 3 3 [.commit 9, .deal, .deal]) [0, 0, 1, 0, 0, 0, 0]).threads[1]? = some (.dealLoadC 3) ∧
+    (run (init 100 3 3 [.commit 9, .deal, .deal]) ([0, 0, 1, 0, 0, 0, 0] ++ [2, 2, 2, 1, 1, 1, 1, 1])).threads[2]? = some (.dealDone 10) ∧
+    (run (init 100 3 3 [.commit 9, .deal, .deal]) ([0, 0, 1, 0, 0, 0, 0] ++ [2, 2, 2, 1, 1, 1, 1, 1])).threads[1]? = some (.dealDone 11) := by
   decide
 
 /-- A GetRevision whose load executes after a `Commit r` call finished returns at least `r`. -/
@@ -143,10 +251,10 @@ theorem get_results_monotone_in_real_time {s : State} (h : WF s) (p q : List Nat
   simp only [Local] at h1
   exact Nat.le_trans h1 (get_result_above q (wf_noPlainStore (wf_run h p)) hb hb')
 
-example : (run (init 3 3 [.commit 9, .get, .commit 5, .get]) [0, 0, 2, 1]).threads[1]? = some (.getDone 9) ∧
-    (run (init 3 3 [.commit 9, .get, .commit 5, .get]) [0, 0, 2, 1]).threads[3]? = some .getLoad ∧
-    (run (init 3 3 [.commit 9, .get, .commit 5, .get]) ([0, 0, 2, 1] ++ [2, 2, 2, 3])).threads[3]? = some (.getDone 9) ∧
-    (run (init 3 3 [.commit 9, .get, .commit 5, .get]) ([0, 0, 2, 1] ++ [2, 2, 2, 3])).threads[2]? = some (.commitDone 5) := by
+example : (run (init 100 3 3 [.commit 9, .get, .commit 5, .get]) [0, 0, 2, 1]).threads[1]? = some (.getDone 9) ∧
+    (run (init 100 3 3 [.commit 9, .get, .commit 5, .get]) [0, 0, 2, 1]).threads[3]? = some .getLoad ∧
+    (run (init 100 3 3 [.commit 9, .get, .commit 5, .get]) ([0, 0, 2, 1] ++ [2, 2, 2, 3])).threads[3]? = some (.getDone 9) ∧
+    (run (init 100 3 3 [.commit 9, .get, .commit 5, .get]) ([0, 0, 2, 1] ++ [2, 2, 2, 3])).threads[2]? = some (.commitDone 5) := by
   decide
 
 /-! ## 5. termination and the cost of contention -/
@@ -165,12 +273,12 @@ theorem commit_call_alone_takes_four (s : State) {t r : Nat} (ht : s.threads[t]?
 
 /-- "Four from any state" is false: a thread parked at its first compare-and-swap with a stale value needs a fifth. -/
 theorem four_steps_not_enough_midway :
-    (run { committed := 2, deal := 0, threads := [.casC 5 1] } (List.replicate 4 0)).threads[0]? = some (.casD 5 0) ∧
-    (run { committed := 2, deal := 0, threads := [.casC 5 1] } (List.replicate 5 0)).threads[0]? = some (.commitDone 5) := by
+    (run { window := 100, committed := 2, deal := 0, threads := [.casC 5 1] } (List.replicate 4 0)).threads[0]? = some (.casD 5 0) ∧
+    (run { window := 100, committed := 2, deal := 0, threads := [.casC 5 1] } (List.replicate 5 0)).threads[0]? = some (.commitDone 5) := by
   decide
 
-example : (run (init 0 0 [.commit 5, .commit 2]) [0, 1, 1]).threads[0]? = some (.casC 5 0) ∧
-    (run (init 0 0 [.commit 5, .commit 2]) [0, 1, 1]).committed = 2 := by decide
+example : (run (init 100 0 0 [.commit 5, .commit 2]) [0, 1, 1]).threads[0]? = some (.casC 5 0) ∧
+    (run (init 100 0 0 [.commit 5, .commit 2]) [0, 1, 1]).committed = 2 := by decide
 
 /-- A compare-and-swap on `committed` fails (the thread goes back to its load) exactly when the value it
 loaded is below `r` and is no longer the register's value: someone else wrote in between. -/
@@ -202,8 +310,8 @@ theorem failed_cas_means_progress_deal (s : State) {t r cur : Nat} (ht : s.threa
     · simp [h1, h2]
     · simp [h1, h2]; omega
 
-example : (run (init 0 0 [.commit 5, .commit 2]) [0, 1, 1]).threads[0]? = some (.casC 5 0) ∧
-    (step (run (init 0 0 [.commit 5, .commit 2]) [0, 1, 1]) 0).threads[0]? = some (.loadC 5) := by decide
+example : (run (init 100 0 0 [.commit 5, .commit 2]) [0, 1, 1]).threads[0]? = some (.casC 5 0) ∧
+    (step (run (init 100 0 0 [.commit 5, .commit 2]) [0, 1, 1]) 0).threads[0]? = some (.loadC 5) := by decide
 
 /-- With the current routines a change of `committed` is a raise. -/
 theorem change_below_is_a_raise {s : State} (h : NoPlainStore s) (i : Nat)
@@ -226,11 +334,64 @@ theorem commit_failures_bounded_deal (s : State) (p : List Nat) {t r : Nat} (ht 
   simpa [hp] using h
 
 /-- The bound is attained: one failure, one raise by the other thread. -/
-example : failsC 0 5 (init 0 0 [.commit 5, .commit 2]) [0, 1, 1, 0, 0, 0, 0, 0] = 1 ∧
-    changesBelowC 0 5 (init 0 0 [.commit 5, .commit 2]) [0, 1, 1, 0, 0, 0, 0, 0] = 1 := by decide
+example : failsC 0 5 (init 100 0 0 [.commit 5, .commit 2]) [0, 1, 1, 0, 0, 0, 0, 0] = 1 ∧
+    changesBelowC 0 5 (init 100 0 0 [.commit 5, .commit 2]) [0, 1, 1, 0, 0, 0, 0, 0] = 1 := by decide
 
-example : failsD 0 5 (init 0 0 [.commit 5, .deal, .deal]) [0, 0, 0, 1, 0, 0, 2, 0, 0, 0] = 2 ∧
-    changesBelowD 0 5 (init 0 0 [.commit 5, .deal, .deal]) [0, 0, 0, 1, 0, 0, 2, 0, 0, 0] = 2 := by decide
+example : failsD 0 5 (init 100 0 0 [.commit 5, .deal, .deal]) [0, 0, 0, 1, 1, 1, 0, 0, 2, 2, 2, 0, 0, 0] = 2 ∧
+    changesBelowD 0 5 (init 100 0 0 [.commit 5, .deal, .deal]) [0, 0, 0, 1, 1, 1, 0, 0, 2, 2, 2, 0, 0, 0] = 2 := by decide
+
+/-- Deal's compare-and-swap fails (the thread goes back to its first load) exactly when the window check passed and
+the cursor is no longer the value loaded. -/
+theorem failed_deal_cas_means_progress (s : State) {t dealt c0 : Nat} (ht : s.threads[t]? = some (.dealCas dealt c0)) :
+    (step s t).threads[t]? = some .dealLoadD ↔ (¬ (c0 ≤ dealt ∧ s.window ≤ dealt + 1 - c0) ∧ s.deal ≠ dealt) := by
+  rw [step_threads_self ht]
+  simp only [stepPc]
+  by_cases h1 : c0 ≤ dealt ∧ s.window ≤ dealt + 1 - c0
+  · simp [h1]
+  · by_cases h2 : s.deal = dealt <;> simp [h1, h2]
+
+/-- … and under the invariant "no longer the value loaded" means RAISED: another Deal's add, or a Commit. -/
+theorem failed_deal_cas_register_was_raised {s : State} (h : WF s) {t dealt c0 : Nat}
+    (ht : s.threads[t]? = some (.dealCas dealt c0)) (hf : (step s t).threads[t]? = some .dealLoadD) : dealt < s.deal := by
+  have h1 := (failed_deal_cas_means_progress s ht).mp hf
+  have h2 := h.loc t _ ht
+  simp only [Local] at h2
+  omega
+
+/-- Every change of `deal`, by any routine, is a raise. -/
+theorem deal_change_is_a_raise (s : State) (i : Nat) (hc : (step s i).deal ≠ s.deal) : s.deal < (step s i).deal :=
+  Nat.lt_of_le_of_ne (step_deal_mono s i) (Ne.symm hc)
+
+/-- Along ANY schedule, the failed compare-and-swaps of thread `t`'s Deal (counted from the entry of the call) are at
+most the steps of OTHER threads that change `deal` (successful adds of other Deals, successful raises of Commits). -/
+theorem deal_failures_bounded (s : State) (p : List Nat) {t : Nat} (ht : s.threads[t]? = some .dealLoadD) :
+    failsDeal t s p ≤ changesD t s p := by
+  have h := failsDeal_le t s p
+  have hp : staleDeal s t = false := by simp [staleDeal, ht]
+  simpa [hp] using h
+
+example : failsDeal 0 (init 100 0 0 [.deal, .deal, .commit 7]) [0, 0, 1, 1, 1, 0, 0, 0, 2, 2, 2, 2, 0, 0, 0, 0] = 2 ∧
+    changesD 0 (init 100 0 0 [.deal, .deal, .commit 7]) [0, 0, 1, 1, 1, 0, 0, 0, 2, 2, 2, 2, 0, 0, 0, 0] = 2 ∧
+    (run (init 100 0 0 [.deal, .deal, .commit 7]) [0, 0, 1, 1, 1, 0, 0, 0, 2, 2, 2, 2, 0, 0, 0, 0]).threads[0]? = some (.dealDone 8) := by
+  decide
+
+/-- From ANY point inside a Deal call the thread scheduled alone finishes within five steps (three from the entry),
+with a revision or a refusal. -/
+theorem deal_terminates_when_alone (s : State) {t : Nat} {pc : Pc} (ht : s.threads[t]? = some pc) (hd : pc.inDeal = true) :
+    (∃ v, (run s (List.replicate 5 t)).threads[t]? = some (.dealDone v)) ∨
+    (∃ a b, (run s (List.replicate 5 t)).threads[t]? = some (.dealRefused a b)) := by
+  rw [(run_solo 5 ht).2.2]
+  rcases solo_deal_five (W := s.window) (c := s.committed) (d := s.deal) hd with ⟨v, h⟩ | ⟨a, b, h⟩
+  · exact Or.inl ⟨v, by rw [h]⟩
+  · exact Or.inr ⟨a, b, by rw [h]⟩
+
+theorem deal_call_alone_takes_three (s : State) {t : Nat} (ht : s.threads[t]? = some .dealLoadD) :
+    (∃ v, (run s (List.replicate 3 t)).threads[t]? = some (.dealDone v)) ∨
+    (∃ a b, (run s (List.replicate 3 t)).threads[t]? = some (.dealRefused a b)) := by
+  rw [(run_solo 3 ht).2.2]
+  rcases solo_dealLoadD s.window 0 s.committed s.deal with ⟨v, h⟩ | ⟨a, b, h⟩
+  · exact Or.inl ⟨v, by rw [h]⟩
+  · exact Or.inr ⟨a, b, by rw [h]⟩
 
 /-! ## 6. the routines before the repairs -/
 
@@ -240,13 +401,13 @@ def lateLowSchedule : List Nat := [0, 0, 0, 0, 1, 1, 1, 1]
 /-- Before db7d4ff (plain store): the later Commit 3 puts `committed` back below 5 although Commit 5 is done —
 `commit_postcondition` and `committed_monotone` fail. -/
 theorem old_commit_lowers :
-    let s := run { committed := 0, deal := 0, threads := [.oldStoreC 5, .oldStoreC 3] } lateLowSchedule
+    let s := run { window := 100, committed := 0, deal := 0, threads := [.oldStoreC 5, .oldStoreC 3] } lateLowSchedule
     s.threads[0]? = some (.oldDone 5) ∧ s.threads[1]? = some (.oldDone 3) ∧ s.committed = 3 ∧ s.committed < 5 := by
   decide
 
 /-- The same schedule, current routine: both done, nothing lowered. -/
 theorem current_commit_keeps :
-    let s := run (init 0 0 [.commit 5, .commit 3]) lateLowSchedule
+    let s := run (init 100 0 0 [.commit 5, .commit 3]) lateLowSchedule
     s.threads[0]? = some (.commitDone 5) ∧ s.threads[1]? = some (.commitDone 3) ∧ s.committed = 5 ∧ s.deal = 5 := by
   decide
 
@@ -255,51 +416,66 @@ def lostCasSchedule : List Nat := [0, 0, 0, 1, 1, 1, 1, 0, 0, 0]
 
 /-- Before 55a7cb8 (single compare-and-swap on `deal`, result ignored): Commit 7 finishes with `deal = 5 < 7`. -/
 theorem old_deal_cas_lost :
-    let s := run { committed := 0, deal := 0, threads := [.midLoadC 7, .midLoadC 5] } lostCasSchedule
+    let s := run { window := 100, committed := 0, deal := 0, threads := [.midLoadC 7, .midLoadC 5] } lostCasSchedule
     s.threads[0]? = some (.oldDone 7) ∧ s.threads[1]? = some (.oldDone 5) ∧ s.committed = 7 ∧ s.deal = 5 ∧ s.deal < 7 := by
   decide
 
 /-- … and so does the routine before db7d4ff, which has the same tail. -/
 theorem oldest_deal_cas_lost :
-    let s := run { committed := 0, deal := 0, threads := [.oldStoreC 7, .oldStoreC 5] } [0, 0, 1, 1, 1, 0]
+    let s := run { window := 100, committed := 0, deal := 0, threads := [.oldStoreC 7, .oldStoreC 5] } [0, 0, 1, 1, 1, 0]
     s.threads[0]? = some (.oldDone 7) ∧ s.threads[1]? = some (.oldDone 5) ∧ s.deal = 5 ∧ s.deal < 7 := by
   decide
 
 /-- The same schedule, current routine: the failed compare-and-swap is retried; done with `deal = 7`. -/
 theorem current_deal_cas_retried :
-    let s := run (init 0 0 [.commit 7, .commit 5]) lostCasSchedule
+    let s := run (init 100 0 0 [.commit 7, .commit 5]) lostCasSchedule
     s.threads[0]? = some (.commitDone 7) ∧ s.threads[1]? = some (.commitDone 5) ∧ s.committed = 7 ∧ s.deal = 7 := by
   decide
 
 /-- Commit 7 (thread 0: the started-leading callback installing the start revision 7) loads `deal`, a Deal
 (thread 1) moves the cursor, thread 0 goes on to completion, then a Deal (thread 2: the new leader's first write). -/
-def lostToDealSchedule : List Nat := [0, 0, 0, 1, 0, 0, 0, 2]
+def lostToDealSchedule : List Nat := [0, 0, 0, 1, 1, 1, 0, 0, 0, 2, 2, 2]
 
-/-- Before 55a7cb8: the Deal issued AFTER Commit 7 finished returns 2, not above 7 (`deal_after_commit_is_above` fails). -/
+/-- Before 55a7cb8 (Deal was the one-instruction add then): the Deal issued AFTER Commit 7 finished returns 2, not above 7 (`deal_after_commit_is_above` fails). -/
 theorem old_deal_cas_lost_to_deal :
-    let s := run { committed := 0, deal := 0, threads := [.midLoadC 7, .dealAdd, .dealAdd] } lostToDealSchedule
+    let s := run { window := 100, committed := 0, deal := 0, threads := [.midLoadC 7, .dealAddOld, .dealAddOld] } lostToDealSchedule
     s.threads[0]? = some (.oldDone 7) ∧ s.threads[2]? = some (.dealDone 2) ∧ s.deal = 2 ∧ s.deal < 7 := by
   decide
 
 /-- The same schedule, current routine: the Deal after Commit 7 returns 8. -/
 theorem current_deal_after_commit :
-    let s := run (init 0 0 [.commit 7, .deal, .deal]) lostToDealSchedule
+    let s := run (init 100 0 0 [.commit 7, .deal, .deal]) lostToDealSchedule
     s.threads[0]? = some (.commitDone 7) ∧ s.threads[2]? = some (.dealDone 8) ∧ s.deal = 8 := by
   decide
 
 /-! ## 7. the source is the routine the LTS models -/
 
 /-- Regenerated from /repo/pkg/backend/tso/tso.go on every run (harness/cmd/kbextract/tsoshape.go): `Commit` is
-exactly the two raise loops of `loadC/casC/loadD/casD`, `Deal` one atomic add of 1 on `dealRevision`, `GetRevision`
-one atomic load of `committedRevision`, `Init` two plain stores that no non-test code calls, the two registers
-are touched nowhere else, and the extractor recognised everything it saw. A rewrite of tso.go breaks this proof. -/
+exactly the two raise loops of `loadC/casC/loadD/casD`; `Deal` is exactly the loop load `dealRevision` / load
+`committedRevision` / refuse when `dealt >= committed && dealt+1-committed >= MaxInFlight` / compare-and-swap
+`dealRevision` from `dealt` to `dealt+1` and return it (`dealLoadD/dealLoadC/dealCas`); `MaxInFlight` is the backend's
+slot ring `watchersChanCapacity` (pkg/backend/backend.go, KB/Generated/Consts.lean); `GetRevision` is one atomic load of
+`committedRevision`; `Init` two plain stores that no non-test code calls; the two registers are touched nowhere
+else; and the extractor recognised everything it saw. A rewrite of tso.go breaks this proof. -/
 theorem source_matches_lts :
-    tsoCommitShape = expectedShape ∧ tsoDealIsAtomicAdd = true ∧ tsoGetIsAtomicLoad = true ∧
-    tsoRegistersOnlyTouchedInTso = true ∧ tsoRegisterMentions = 10 ∧
+    tsoCommitShape = expectedShape ∧ tsoDealShape = expectedDealShape ∧ tsoMaxInFlight = watchersChanCapacity ∧
+    0 < tsoMaxInFlight ∧ tsoGetIsAtomicLoad = true ∧
+    tsoRegistersOnlyTouchedInTso = true ∧ tsoRegisterMentions = 12 ∧
     tsoInitShape = ["store:committedRevision", "store:dealRevision"] ∧ tsoInitCallSites = 0 ∧
-    tsoShapeUnresolved = [] := by decide
+    tsoShapeUnresolved = [] ∧ constsUnresolved = [] := by decide
 
-/-- The source is neither of the two routines refuted above. -/
-theorem source_is_not_a_prefix_routine : tsoCommitShape ≠ oldShape ∧ tsoCommitShape ≠ midShape := by decide
+/-- `dealt_stays_in_window` with the regenerated constants: on a node whose window is the source's `MaxInFlight`,
+a dealt revision is less than the sequencer's ring length ahead of the committed revision, for ever. -/
+theorem dealt_stays_in_ring {s : State} (h : WF s) (hW : s.window = tsoMaxInFlight) (p q : List Nat) {t v : Nat}
+    (ht : (run s p).threads[t]? = some (.dealDone v)) :
+    v - (run s (p ++ q)).committed < watchersChanCapacity := by
+  have h1 := source_matches_lts
+  have h2 := dealt_distance_below_window h (by rw [hW]; exact h1.2.2.2.1) p q ht
+  rw [hW, h1.2.2.1] at h2
+  exact h2
+
+/-- The source is none of the routines refuted above. -/
+theorem source_is_not_a_prefix_routine :
+    tsoCommitShape ≠ oldShape ∧ tsoCommitShape ≠ midShape ∧ tsoDealShape ≠ oldDealShape := by decide
 
 end KB.C18Cas
